@@ -366,3 +366,165 @@ def mir_name(path):
 
 def where(span):
     return "%s:%s" % (span.get("file"), span.get("line"))
+
+
+# --------------------------------------------------------------------------- path conditions (structured tree)
+
+def _diverges(block):
+    """block always ends by leaving the enclosing control flow (return/break/continue/panic as last statement)"""
+    if not (is_node(block) and block[0] == "block" and block[1]):
+        n = block
+    else:
+        last = block[1][-1]
+        n = last[1] if last[0] == "expr" else None
+    if n is None:
+        return False
+    n = unblock(n)
+    if n[0] in ("return", "break", "continue"):
+        return True
+    if n[0] == "macro" and n[1] in ("panic", "unreachable", "todo", "unimplemented"):
+        return True
+    if n[0] == "call" and (path_of(n[1]) or "").split("::")[-1] in ("panic", "panic_fmt", "begin_panic", "panic_explicit", "unreachable_display"):
+        return True
+    if n[0] == "if" and n[3] is not None:
+        return _diverges(n[2]) and _diverges(n[3])
+    if n[0] == "match":
+        return all(_diverges(a[2]) for a in n[2])
+    if n[0] == "block":
+        return _diverges(n)
+    return False
+
+
+def sites(body, pred):
+    """Yield (node, conds) for every node satisfying pred; conds = list of condition strings that hold on every path to
+    the node: enclosing if/match-arm conditions and the negation of every earlier `if c { diverge }` in enclosing blocks."""
+    out = []
+
+    def visit(n, conds):
+        if not isinstance(n, list):
+            return
+        if is_node(n):
+            if pred(n):
+                out.append((n, list(conds)))
+            k = n[0]
+            if k == "block":
+                cs = list(conds)
+                for s in n[1]:
+                    if s[0] == "local":
+                        if s[3] is not None:
+                            visit(s[3], cs)
+                            # let x = match S { P => v, _ => return .. }  => afterwards S matched P
+                            init = unblock(s[3])
+                            if init[0] == "match":
+                                live = [a for a in init[2] if not _diverges(a[2])]
+                                if len(live) == 1 and len(init[2]) > 1:
+                                    cs = cs + ["%s matches %s" % (show(init[1]), show(live[0][0]))]
+                        if s[4] is not None:
+                            visit(s[4], cs)
+                    elif s[0] == "expr":
+                        visit(s[1], cs)
+                        e = unblock(s[1])
+                        if e[0] == "if" and e[3] is None and _diverges(e[2]):
+                            cs = cs + ["!(%s)" % show(e[1])]
+                        elif e[0] == "if" and e[3] is not None and _diverges(e[2]) and not _diverges(e[3]):
+                            cs = cs + ["!(%s)" % show(e[1])]
+                        elif e[0] == "if" and e[3] is not None and _diverges(e[3]) and not _diverges(e[2]):
+                            cs = cs + ["(%s)" % show(e[1])]
+                return
+            if k == "if":
+                visit(n[1], conds)
+                visit(n[2], conds + ["(%s)" % show(n[1])])
+                if n[3] is not None:
+                    visit(n[3], conds + ["!(%s)" % show(n[1])])
+                return
+            if k == "match":
+                visit(n[1], conds)
+                for pat, guard, body_ in n[2]:
+                    c = "%s matches %s" % (show(n[1]), show(pat))
+                    if guard is not None:
+                        visit(guard, conds + [c])
+                        c += " if %s" % show(guard)
+                    visit(body_, conds + [c])
+                return
+            if k == "while":
+                visit(n[1], conds)
+                visit(n[2], conds + ["(%s)" % show(n[1])])
+                return
+            for c in n[1:]:
+                visit(c, conds)
+        else:
+            for c in n:
+                visit(c, conds)
+    visit(body, [])
+    return out
+
+
+# --------------------------------------------------------------------------- CFG queries over MIR skeletons
+
+class Cfg:
+    def __init__(self, fn):
+        self.fn = fn
+        self.blocks = fn["blocks"]
+        self.n = len(self.blocks)
+        self.succ = []
+        for b in self.blocks:
+            t = b["t"]
+            if t["t"] == "switch":
+                s = [x[1] for x in t["vals"]] + [t["otherwise"]]
+            else:
+                s = list(t.get("to") or [])
+            self.succ.append([x for x in s if x is not None])
+        self.pred = [[] for _ in range(self.n)]
+        for i, ss in enumerate(self.succ):
+            for j in ss:
+                self.pred[j].append(i)
+        self._dom = None
+
+    def calls(self, name=None, trait=None):
+        out = []
+        for i, b in enumerate(self.blocks):
+            t = b["t"]
+            if t["t"] == "call" and not b.get("cleanup"):
+                if name is not None and t.get("rn") != name:
+                    continue
+                if trait is not None and not (t.get("rt") or "").endswith(trait):
+                    continue
+                out.append(i)
+        return out
+
+    def reachable(self, start, avoid=()):
+        seen = set()
+        st = [start]
+        while st:
+            x = st.pop()
+            if x in seen or x in avoid:
+                continue
+            seen.add(x)
+            st += self.succ[x]
+        return seen
+
+    def dominators(self):
+        if self._dom is None:
+            reach = self.reachable(0)
+            dom = {i: set(reach) for i in reach}
+            dom[0] = {0}
+            changed = True
+            while changed:
+                changed = False
+                for i in sorted(reach):
+                    if i == 0:
+                        continue
+                    ps = [p for p in self.pred[i] if p in reach]
+                    new = set(reach)
+                    for p in ps:
+                        new &= dom[p]
+                    new |= {i}
+                    if new != dom[i]:
+                        dom[i] = new
+                        changed = True
+            self._dom = dom
+        return self._dom
+
+    def dominates(self, a, b):
+        d = self.dominators()
+        return b in d and a in d[b]
